@@ -1,6 +1,58 @@
-(* Properties/C04.v — placeholder until the proofs land. *)
+(* Properties/C04.v — server command framing: literal payloads are never parsed as commands. *)
 From GoImap.Base Require Import Bytes.
-From GoImap.Model Require Import Wire ServerConn ServerFrame.
-Theorem C04_placeholder : True.
-Proof. exact I. Qed.
-Print Assumptions C04_placeholder.
+From GoImap.Model Require Import NumSet MatchList Utf7 Wire ServerConn ServerFrame.
+From GoImap.Proofs Require Import ServerFrameSpec ServerFrameProofs.
+Open Scope N_scope.
+
+Theorem C04_frames_agree : forall cfg st0 cs, forallb wf_cmd cs = true ->
+  let f := run_stream cfg st0 (render cs) in
+  rev (fs_starts f) = starts_from 0 cs /\
+  out_tags (rev (fs_out f)) = tags_upto cs /\
+  (forall k s, In k (fs_calls f) -> In s (call_strings k) -> In s (arg_values cs)).
+Proof. exact frames_agree. Qed.
+Print Assumptions C04_frames_agree.
+
+Theorem C04_one_completion : forall cfg st0 s,
+  let f := run_stream cfg st0 s in
+  (length (filter is_tagged (fs_out f)) <= length (fs_starts f))%nat /\
+  (length (fs_starts f) <= S (length (filter is_tagged (fs_out f))))%nat.
+Proof. exact one_completion. Qed.
+Print Assumptions C04_one_completion.
+
+Theorem C04_literal_continuation : forall s,
+  match s_literal s with
+  | SOk v rest k =>
+      exists n nonsync r, lit_header s = SOk (n, nonsync) r O /\ n <= 4096 /\
+        v = firstn (N.to_nat n) r /\ rest = skipn (N.to_nat n) r /\
+        k = (if nonsync then O else 1%nat)
+  | SErr _ _ k _ => k = O
+  | SNo _ => True
+  end.
+Proof. exact literal_continuation. Qed.
+Print Assumptions C04_literal_continuation.
+
+Theorem C04_refused_nonsync_closes : forall cfg f total s tag r1 r2 name r3,
+  dec_atom s = DOk tag r1 -> dec_sp r1 = DOk tt r2 -> dec_atom r2 = DOk name r3 ->
+  bytes_eqb (ascii_upper name) (s2b "UID") = false ->
+  let h := handle_cmd cfg (fs_conn f) name r3 in
+  (h_close h = true \/ (snd (discard_line (h_crlf h) (h_rest h)) = true /\ h_cls h <> 0)) ->
+  snd (read_command cfg f total s) = None /\
+  exists outs, fs_out (fst (read_command cfg f total s)) = OBye :: outs.
+Proof. exact refused_nonsync_closes. Qed.
+Print Assumptions C04_refused_nonsync_closes.
+
+(* non-vacuity: payloads full of command-like text, a refused synchronising literal, and a
+   refused non-synchronising literal that ends the connection before A6 *)
+Definition ex_payload := s2b "X1 CREATE evil" ++ CRLF_ ++ s2b "X2 DELETE INBOX" ++ CRLF_.
+Definition ex_cmds := [ mkCmd (s2b "A1") (s2b "LOGIN") [mkArg ex_payload FSync; mkArg (s2b "pw") FAtom];
+                        mkCmd (s2b "A2") (s2b "noop") [];
+                        mkCmd (s2b "A3") (s2b "CREATE") [mkArg (rep 5000 (s2b "x")) FSync];
+                        mkCmd (s2b "A4") (s2b "DELETE") [mkArg (s2b "a b") FQuoted];
+                        mkCmd (s2b "A5") (s2b "RENAME") [mkArg (s2b "x") FAtom; mkArg (rep 5000 (s2b "x")) FNonSync];
+                        mkCmd (s2b "A6") (s2b "NOOP") [] ].
+Example C04_nonvacuous :
+  forallb wf_cmd ex_cmds = true /\
+  tags_upto ex_cmds = map s2b ["A1"; "A2"; "A3"; "A4"; "A5"]%string /\
+  out_tags (rev (fs_out (run_stream (mkFcfg true false false (fun _ => false)) SNotAuth (render ex_cmds))))
+    = map s2b ["A1"; "A2"; "A3"; "A4"; "A5"]%string.
+Proof. vm_compute. repeat split. Qed.
